@@ -204,4 +204,46 @@ namespace wc
     }
 #endif
   };
+
+  inline WorldCfg draw_cfg(int lmax_cap_2d, int lmax_cap_3d, bool allow_3d = true)
+  {
+    WorldCfg c;
+    static const char* files[5] = {"unit-square-quad.xml", "unit-square-tria.xml", "l-shape-quad.xml", "unit-cube-hexa.xml", "l-shape-tria.xml"};
+    c.mesh = int(sim::cfg_weighted("mesh", {5, 3, 3, allow_3d ? 2 : 0, 2}));
+    c.mesh_file = files[c.mesh];
+    const bool is3d = (c.mesh == 3);
+    static const int ns[16] = {1, 2, 2, 3, 3, 4, 4, 5, 6, 7, 8, 8, 9, 12, 15, 16};
+    c.n = ns[sim::cfg_int("n_idx", 0, 15)];
+    c.layers = 1;
+    int want_layers = int(sim::cfg_weighted("layers", {6, 3, 1})) + 1;
+    // divisor chain for multi-layered hierarchies
+    std::vector<int> chain{c.n};
+    while(int(chain.size()) < want_layers)
+    {
+      int cur = chain.back();
+      std::vector<int> divs;
+      for(int d = cur / 2; d >= 2; --d) if(cur % d == 0) divs.push_back(d);
+      if(divs.empty()) break;
+      int pick = int(sim::cfg_int(("div" + std::to_string(chain.size())).c_str(), 0, 7));
+      chain.push_back(divs[size_t(pick) % divs.size()]);
+    }
+    c.layers = int(chain.size());
+    int lmax_cap = is3d ? lmax_cap_3d : lmax_cap_2d;
+    c.lvl_max = int(sim::cfg_int("lvl_max", 1, lmax_cap));
+    std::vector<int> lv{c.lvl_max};
+    for(int i = 1; i <= c.layers; ++i) lv.push_back(int(sim::cfg_int(("lvl" + std::to_string(i)).c_str(), 0, lv.back())));
+    std::ostringstream os;
+    os << lv[0];
+    for(int i = 1; i < c.layers; ++i) os << " " << lv[size_t(i)] << ":" << chain[size_t(i)];
+    os << " " << lv.back();
+    c.levels = os.str();
+    c.parti = int(sim::cfg_weighted("parti", {4, 2, 2, 3}));
+    if(c.parti == 3 && c.layers > 1) c.parti = 0;
+    c.assign_seed = (unsigned long long)sim::cfg_int("assign_seed", 0, 1 << 30);
+    c.assign_level = int(sim::cfg_int("assign_level", 0, is3d ? 1 : 2));
+    c.adapt = int(sim::cfg_int("assign_mode", 0, 2));
+    c.rank_elems = int(sim::cfg_weighted("rank_elems", {3, 1, 1})) == 0 ? 1 : int(sim::cfg_int("rank_elems_v", 2, 4));
+    return c;
+  }
+
 }
